@@ -304,6 +304,7 @@ def gen_khist(draw, tier="quick"):
         op = {"op": k}
         if k == "call":
             op["return_var"] = draw(st.booleans())
+            op["nopos"] = draw(st.booleans())
         if k == "nudge_targets":
             # the next request is for slightly different targets (relative move inside numpy.allclose's default window)
             op["rel"] = draw(st.sampled_from([3e-6, 8e-6, -5e-6]))
@@ -331,6 +332,11 @@ def gen_khist(draw, tier="quick"):
         # motif: the same kind of call before and after a property change
         ops.append(dict(last))
         ops.append({"op": "mean", "v": draw(st.floats(-2.0, 3.0)), "refresh": draw(st.booleans())})
+    if fdim > 1 and draw(st.integers(0, 2)) == 0:
+        # motif: a call, a change of the anisotropy / orientation with the documented refresh, then a call that relies on the stored targets
+        ops.append(dict(last))
+        ops.append(draw(st.sampled_from([{"op": "anis", "factor": 2.5, "idx": 0}, {"op": "anis", "factor": 0.4, "idx": 1}, {"op": "angles", "delta": 0.9, "idx": 0}])))
+        last = dict(last, nopos=True)
     ops.append(last)
     case["ops"] = ops
     case["fit"] = draw(st.sampled_from([False, False, True]))
@@ -349,6 +355,7 @@ def check_khist(case, rec):
     cond_val = np.array(case["cond_val"], dtype=float)
     pos = np.array(case["pos"], dtype=float).reshape(fdim, -1)
     changed = 0
+    last_pos, changed_at_call = None, 0
     with quiet():
         model = lib(build_model, spec, _tags=tags)
         cc = dict(case, spec=spec, cfg=cfg)
@@ -418,11 +425,18 @@ def check_khist(case, rec):
                     if not np.isfinite(ref["cond"]) or ref["cond"] > 1e9 or not np.all(np.isfinite(ref["field"])):
                         rec.exclude("cond>1e9")
                         return
+                    args = (pos.copy(),)
+                    if op.get("nopos") and last_pos is not None and np.array_equal(last_pos, pos):
+                        # the targets of the previous call are kept by the object
+                        args = ()
+                        rec.label("call_without_positions" + ("_after_change" if changed > changed_at_call else ""))
                     if op.get("return_var", True):
-                        f, v = k(pos.copy())
+                        f, v = k(*args)
                     else:
-                        f, v = k(pos.copy(), return_var=False), ref["var"]
+                        f, v = k(*args, return_var=False), ref["var"]
                         rec.label("call_without_variance")
+                    last_pos = pos.copy()
+                    changed_at_call = changed
                     sc = max(1.0, float(np.max(np.abs(cond_val))), float(np.max(np.abs(ref["field"]))))
                     t = kc.tol(c2, ref["cond"], sc) * 10
                     tv = kc.tol(c2, ref["cond"], max(cur["var"] + cur["nugget"], float(np.max(np.abs(ref["var"]))))) * 10
